@@ -2,6 +2,7 @@
 from mcommon import *
 from handler_model import *
 from p_c01 import violated
+from p_c08 import implied
 import p_c03
 
 
@@ -393,6 +394,36 @@ def check_reporter_wrapper(rep, ctx):
     rep.add(Query("witness: reporter wrapper has a completing path", "witness-hit" if n_ok else "witness-missed", "%d" % n_ok, 0, "mirsym"))
 
 
+def check_mode_parser(rep, ctx):
+    """'in enforce / audit / disabled mode': which mode a rule document's text selects - AuthorizationMode::from_str maps (the lower-cased)
+    "enforce", "audit", "disabled" to the variant of that name and nothing else to any variant; from_authorization_item stores what it returns"""
+    c = [p for p in ctx.idx.files if p.endswith("::from_str") and "authorization_rules" in p]
+    if len(c) != 1:
+        rep.add(Query("AuthorizationMode::from_str located", "inconclusive", "%d candidates" % len(c), 0, "mirsym", key="C11.mode-parser"))
+        return
+    eng = ctx.engine()
+    n = 0
+    seen = set()
+    for i, r in enumerate(eng.explore(c[0])):
+        if r.status != "return" or not isinstance(r.ret, Agg):
+            continue
+        lows = [e for e in r.events if e.kind == "call" and re.search(r"to_lowercase$|to_ascii_lowercase$", e.callee) and same_origin(e.rargs[0], r.args[0])]
+        text = lows[0].ret.string() if lows else origin(r.args[0]).string()
+        words = {"Enforce": "enforce", "Audit": "audit", "Disabled": "disabled"}
+        if r.ret.variant == "Ok":
+            v = r.ret.fields[0]
+            name = v.variant if isinstance(v, Agg) else None
+            n += 1
+            seen.add(name)
+            ok = name in words and bool(lows) and implied(r, text == z3.StringVal(words[name]))
+            rep.add(Query("mode parser path %d: %s is returned only for the text \"%s\" (any letter case)" % (i, name, words.get(name, "?")), "holds" if ok else "violated", "", 0, "mirsym+z3", key="C11.mode-parser", reproduced=None))
+        else:
+            ok = implied(r, z3.And([text != z3.StringVal(w) for w in words.values()]))
+            rep.add(Query("mode parser path %d: an error only for a text that is none of the three mode names" % i, "holds" if ok else "violated", "", 0, "mirsym+z3", key="C11.mode-parser", reproduced=None))
+    rep.functions_encoded.append(c[0])
+    rep.add(Query("witness: the mode parser returns each of the three modes", "witness-hit" if seen >= {"Enforce", "Audit", "Disabled"} else "witness-missed", str(sorted(x for x in seen if x)), 0, "mirsym"))
+
+
 def check(rep, tier, seed):
     ctx = Ctx("agent")
     rep.extra["mir_dump"] = {"cache_hit": ctx.dump.cache_hit, "tree_hash": ctx.dump.hash, "seconds": round(ctx.dump.seconds, 1)}
@@ -404,6 +435,7 @@ def check(rep, tier, seed):
     check_actor_arms(rep, ctx)
     check_summary_key(rep, ctx)
     check_reporter_wrapper(rep, ctx)
+    check_mode_parser(rep, ctx)
     # "on each endpoint": the mode that decides is the mode of the destination's own rule slot
     import p_c01
     p_c01.check_rules_selection(rep, ctx)
